@@ -704,7 +704,7 @@ func init() {
 	register(&Property{
 		ID:    "C04",
 		Level: "other",
-		Rules: []Rule{{"G1", ruleG1}, {"S1", ruleS1}, {"W1", ruleW1}, {"F2", ruleF2}, {"F3", ruleF3}, {"F4", ruleF4}, {"F5", ruleF5}, {"RC1", ruleRC1}, {"P1", ruleP1}, {"P2", ruleP2}, {"S1b", ruleS1b}, {"T3", func(w *World, r *Report) {
+		Rules: []Rule{{"G1", ruleG1}, {"S1", ruleS1}, {"W1", ruleW1}, {"F2", ruleF2}, {"F3", ruleF3}, {"F4", ruleF4}, {"F5", ruleF5}, {"RC1", ruleRC1}, {"P1", ruleP1}, {"P2", ruleP2}, {"S1b", ruleS1b}, {"S1c", ruleS1c}, {"Z4", ruleZ4}, {"T3", func(w *World, r *Report) {
 			for _, s := range w.G.Sinks {
 				if s.Method == "Truncate" && w.InLib(s.Fn) {
 					checkTruncateGuards(w, r, "T3", s)
